@@ -43,7 +43,8 @@ func c27(r *core.Run) {
 	r.Explanation = "Decided clauses: (R1) field coverage of the contract-update type comparator: every Check…TypeEquality method of stdlib.TypeComparator reads every semantic field of the ast type it compares (e.g. ConstantSizedType: Type and Size; ReferenceType: Type and Authorization; DictionaryType: KeyType and ValueType) — " +
 		"positions, ranges and comments are not semantic; a comparator that skips a field treats different field types as equal and accepts an update that makes stored data unreadable; " +
 		"(R2) rule census: the update validator still reaches its field, nested-declaration, enum-case and conformance checks; " +
-		"(R3) checkNestedDeclarations tests every nested declaration against the removed types on every loop iteration; (R4) inside the comparator a reported mismatch returns before any further comparison runs."
+		"(R3) checkNestedDeclarations tests every nested declaration against the removed types on every loop iteration; (R4) inside the comparator a reported mismatch returns before any further comparison runs; " +
+		"(R5) every Check<T>Equality method asserts the new type to exactly the concrete kind *ast.T of the old one; (R6) the import table of the validator records, for every alias, the location of the imported declaration (its own name), not of the alias."
 	r.NotDecided = "sufficiency of the update rules for keeping stored data decodable."
 	w := r.W
 	tc := w.Named("stdlib", "TypeComparator")
@@ -201,4 +202,92 @@ func c27(r *core.Run) {
 		}
 	}
 	r.Floor("R4.firstmismatch", 5)
+	c27SameKindAssertion(r)
+	c27ImportLocationName(r)
+}
+
+// c27SameKindAssertion: R5 — each Check<T>Equality method of the update validator's type comparator receives the old
+// type as a concrete *ast.T and the new one as an interface; the new type must be asserted to exactly *ast.T (a
+// mismatch is an incompatible update). Asserting a wider interface makes different kinds of types (a disjunctive and a
+// conjunctive entitlement set, say) compare equal element-wise.
+func c27SameKindAssertion(r *core.Run) {
+	const rule = "R5.samekind"
+	w := r.W
+	n := 0
+	for _, fn := range w.SrcFuncsIn("stdlib") {
+		if fn.Parent() != nil || core.RecvName0(fn) != "TypeComparator" || !strings.HasPrefix(fn.Name(), "Check") || !strings.HasSuffix(fn.Name(), "Equality") {
+			continue
+		}
+		if len(fn.Params) < 3 {
+			continue
+		}
+		expected, found := fn.Params[1], fn.Params[2]
+		if _, isPtr := expected.Type().(*types.Pointer); !isPtr {
+			continue
+		}
+		if _, isIface := found.Type().Underlying().(*types.Interface); !isIface {
+			continue
+		}
+		n++
+		same, other := false, ""
+		core.Instrs(fn, true, func(in ssa.Instruction) {
+			ta, ok := in.(*ssa.TypeAssert)
+			if !ok || !strings.Contains(core.OriginLeaves(ta.X), "param#2:") {
+				return
+			}
+			if types.Identical(ta.AssertedType, expected.Type()) {
+				same = true
+			} else {
+				other = types.TypeString(ta.AssertedType, shortQual)
+			}
+		})
+		why := "the new type is never asserted to the old type's kind"
+		if other != "" {
+			why = "the new type is asserted to " + other + " instead of the old type's kind " + types.TypeString(expected.Type(), shortQual)
+		}
+		r.Check(same, rule, core.SSAKey(fn), fn.Pos(), "the new type is asserted to the kind of the old type", why+": types of different kinds compare equal and an incompatible update is accepted")
+	}
+	r.Floor(rule, 8)
+}
+
+// c27ImportLocationName: R6 — the validator resolves a nominal type through the table built by collectImports: alias →
+// location of the imported declaration. Two versions of a contract refer to the same imported type only if address
+// *and declared name* agree; a location named after the alias makes `import Foo as X` and `import Bar as X` identical.
+// The Name stored into every common.AddressLocation built in collectImports must come from the import's identifier,
+// never from its alias.
+func c27ImportLocationName(r *core.Run) {
+	const rule = "R6.importname"
+	fn := mustFn(r, rule, "stdlib", "", "collectImports")
+	if fn == nil {
+		return
+	}
+	n := 0
+	core.Instrs(fn, true, func(in ssa.Instruction) {
+		st, ok := in.(*ssa.Store)
+		if !ok {
+			return
+		}
+		fa, ok := st.Addr.(*ssa.FieldAddr)
+		if !ok {
+			return
+		}
+		pt, ok := fa.X.Type().Underlying().(*types.Pointer)
+		if !ok {
+			return
+		}
+		nt, ok := pt.Elem().(*types.Named)
+		if !ok || nt.Obj().Name() != "AddressLocation" {
+			return
+		}
+		stt := nt.Underlying().(*types.Struct)
+		if stt.Field(fa.Field).Name() != "Name" {
+			return
+		}
+		n++
+		leaves := core.OriginLeaves(st.Val)
+		r.Check(!strings.Contains(leaves, ".Alias"), rule, "stdlib.collectImports: AddressLocation.Name", st.Pos(), "the location is named after the imported declaration "+leaves,
+			"the location recorded for an import is named after its alias "+leaves+": the same alias for different contracts yields identical locations, and a type swapped behind an alias compares as unchanged")
+	})
+	r.Check(n >= 1, rule, "stdlib.collectImports: recorded locations", 0, itoa(n)+" found", "the location construction of collectImports was not found")
+	r.Floor(rule, 2)
 }
